@@ -51,5 +51,6 @@ Spec == Init /\ [][Next]_<<cal, l, bad>>
 AllAgree == (l = Len(Rec) + 1) =>
               \/ bad = <<>>
               \/ PrintT(ToJson([rejected |-> [i \in 1..Len(bad) |-> Rec[bad[i]]]])) /\ FALSE
+\* (not in Trace_Codec.cfg: MC_HttpDate_months.cfg checks the same walk with these invariants)
 CalendarOK == D!JumpAgrees /\ D!AlgoAgrees
 =============================================================================
